@@ -53,7 +53,10 @@ Pool == <<
   [W("/ccc") EXCEPT !.mkind = "redirect-rule", !.mval = "r2"],
   [W("/ab/a") EXCEPT !.mkind = "redirect", !.mval = "p1"],
   [W("/eee") EXCEPT !.mkind = "redirect", !.mval = "r1", !.prio = "1"],
-  [W("/eee") EXCEPT !.mkind = "redirect", !.mval = "al1"]
+  [W("/eee") EXCEPT !.mkind = "redirect", !.mval = "al1"],
+  \* 20, 21: addable redirect rules (a $redirect rule also blocks; a $redirect-rule does not)
+  [W("/jjj") EXCEPT !.mkind = "redirect", !.mval = "r1"],
+  [W("/kkk") EXCEPT !.mkind = "redirect-rule", !.mval = "r1"]
 >>
 \* resources (C06: answers are a function of the LOADED resources): r1 has the alias al1, a later resource
 \* NAMED al1 collides with it - whichever is added first wins; p1 needs a permission and is never served
@@ -69,7 +72,7 @@ UseChoices == {<<>>, <<1, 2>>, <<3, 1>>, <<1, 3, 4>>, <<2>>}
 PoolX == Pool
 InitRules == IF InitSet = "full" THEN <<1, 2, 3, 4, 5, 6, 7, 8, 10, 11>>
              ELSE IF InitSet = "res" THEN <<15, 16, 17, 18, 19, 13, 3>> ELSE <<3, 5, 7, 13>>
-Addable == IF Mode = "blocker" THEN {9, 12, 14} ELSE {}
+Addable == IF Mode = "blocker" THEN {9, 12, 14, 20, 21} ELSE {}
 
 MkReq(path, alias) ==
   LET pre == Chars("https://") h == Chars("x.com") IN
@@ -78,7 +81,8 @@ MkReq(path, alias) ==
 Reqs == << MkReq("/aaa/bbb", "script"), MkReq("/ccc/ddd", "script"), MkReq("/eee/zz", "image"),
            MkReq("/ab/a", "script"), MkReq("/ccc/", "script"), MkReq("/", "document"),
            MkReq("/fff/x/ggg", "script"), MkReq("/hhh/iii", "script"), MkReq("/aaa-bbb", "script"),
-           MkReq("/ab-x", "script"), MkReq("/ab_x", "script"), MkReq("/ab.x", "script"), MkReq("/p?q=1&r=2", "xhr") >>
+           MkReq("/ab-x", "script"), MkReq("/ab_x", "script"), MkReq("/ab.x", "script"), MkReq("/p?q=1&r=2", "xhr"),
+           MkReq("/jjj", "script"), MkReq("/kkk", "script") >>
 
 TagSets == SUBSET {"t1", "t2"}
 RuleSeq(rs) == [i \in DOMAIN rs |-> PoolX[rs[i]]]
